@@ -817,6 +817,10 @@ mod scroll_util {
 
     pub(crate) fn scroll_layer_up(edit_state: &mut crate::editor::EditState, layer: usize) -> EngineResult<()> {
         if let Some(layer) = edit_state.get_buffer_mut().layers.get_mut(layer) {
+            if layer.lines.is_empty() {
+                log::error!("Layer has no lines");
+                return Ok(());
+            }
             let lines = layer.lines.remove(0);
             layer.lines.push(lines);
             Ok(())
